@@ -231,10 +231,13 @@ def domain(ctx, res):
     near_one = [(c, v, e) for c in (1.0000000001, 0.9999999999, 1.000001, -1.0000000001, 1.0) for v in ("x",) for e in (None, 2, 0)]
     triples = [t for t in triples if t[0] is None or abs(t[0]) < 2 ** 30]      # make_term is exercised with ordinary coefficients   # "-1x" is written with its coefficient; "-x" is covered below
     ns = list(range(1, 501 if ctx.quick else 20001))
-    like_forms = FORMS + ["(x + 1)^2", "0.5x", "x^0", "2x * y", "x * y", "y * x", "4", "x / 2"]
+    huge = "1" + "0" * 400          # an exact integer beyond the range of a double (as exponent, coefficient and constant)
+    like_forms = FORMS + ["(x + 1)^2", "0.5x", "x^0", "2x * y", "x * y", "y * x", "4", "x / 2", "x^" + huge, "7x^" + huge, huge + "x", huge + "x^2", huge, "x^2.0", "3x^2.0", "x^-" + huge]
     pairs = list(itertools.product(like_forms, repeat=2))
     texts = rewrite.term_level(3, rewrite.TERMS_Q)
     texts = rewrite.term_level(2, rewrite.TERMS_Q) + rng.sample(texts, 800 if ctx.quick else 20000) + parsefam.CURATED
+    texts += ["x^" + huge, "7x^" + huge + " + x^" + huge, huge + "x + 2x", huge + "x^2 + " + huge + "x^2", "x^" + huge + " * x^2", huge + " + " + huge, "x^2.0 + 3x^2", "2x^" + huge + " * 3y",
+              "x^-" + huge + " + x", "4x^(2^" + "9" * 30 + ")", "-" + huge + "x^3 + y"]
     texts = [t for t in texts if "=" not in t]
     rule = ("%d rearrangement classes emitted by TLC (all multisets of 3 addends over 12 term forms%s; every ordering x grouping; each member built by parsing and by constructors); "
             "%d triples (c in absent,1,2,-3,0.5,0,12,-1; v in absent,x,z; e in absent,2,0,-1,0.5,1,3); factor(n) for n = 1..%d; terms_are_like on %d ordered pairs of %d forms; "
